@@ -177,7 +177,7 @@ impl PoolAllocator {
         let adjusted_start = align(ptr.as_ptr() as usize, bucket_layout.align());
         let bucket_size = align(bucket_layout.size(), bucket_layout.align());
 
-        (ptr.as_ptr() as usize + size - adjusted_start) / bucket_size
+        (ptr.as_ptr() as usize + size).saturating_sub(adjusted_start) / bucket_size
     }
 
     fn verify_ptr_is_managed_by_allocator(&self, ptr: NonNull<u8>) {
@@ -348,7 +348,7 @@ impl<const MAX_NUMBER_OF_BUCKETS: usize> FixedSizePoolAllocator<MAX_NUMBER_OF_BU
     pub fn new(bucket_layout: Layout, ptr: NonNull<u8>, size: usize) -> Self {
         let adjusted_start = align(ptr.as_ptr() as usize, bucket_layout.align());
         let bucket_size = align(bucket_layout.size(), bucket_layout.align());
-        let number_of_buckets = (ptr.as_ptr() as usize + size - adjusted_start) / bucket_size;
+        let number_of_buckets = (ptr.as_ptr() as usize + size).saturating_sub(adjusted_start) / bucket_size;
 
         let mut new_self = FixedSizePoolAllocator {
             state: PoolAllocator {
